@@ -260,7 +260,16 @@ def r12_8(ctx):
     for f in ctx.mir.by_crate["tendril"]:
         if "Buf32" not in f.path or f.d["kind"] == "Closure":
             continue
-        raws = [bb for bb, c, t in f.calls() if c is not None and c["path"].replace("core::", "std::").endswith("Vec::<T>::from_raw_parts")]
+        def makes_raw_vec(c):
+            if c is None:
+                return False
+            if c["path"].replace("core::", "std::").endswith("Vec::<T>::from_raw_parts"):
+                return True
+            g = ctx.mir.callee_fn(c)  # a helper extracted since the review that wraps the from_raw_parts expression
+            return g is not None and mirq.is_new(ctx, g) and any(c2 is not None and c2["path"].replace("core::", "std::").endswith("Vec::<T>::from_raw_parts") for _, c2, _ in g.calls())
+        if mirq.is_new(ctx, f):
+            continue
+        raws = [bb for bb, c, t in f.calls() if makes_raw_vec(c)]
         forgets = [bb for bb, c, t in f.calls() if c is not None and c["path"].replace("core::", "std::") == "std::mem::forget"]
         for rb in raws:
             n += 1
